@@ -264,7 +264,30 @@ pub fn replay_game(v: &Value, mk: fn() -> Box<dyn Obs>) -> Result<Option<Fail>, 
         mm.apply(to_maction(&o2))?;
         mm.apply(to_maction(&x))?;
         let v1 = drive::View::new(&cm, &mm, true);
-        return Ok(obs.on_state(&v1, &mut st).err());
+        if let Err(f) = obs.on_state(&v1, &mut st) {
+            return Ok(Some(f));
+        }
+        // the variant with disjoint lifetimes: this state is kept, its twin is expanded and dropped with
+        // nothing else in between, then this state is rebuilt through the constructors and expanded
+        let mut m2 = mo.clone();
+        m2.apply(to_maction(&o1))?;
+        m2.apply(to_maction(&o2))?;
+        let second = guard(|| {
+            let b = eng.take_action(&o1).take_action(&o2);
+            {
+                let a = eng.take_action(&o2).take_action(&o1);
+                let c = a.take_action(&x);
+                drop(c);
+                drop(a);
+            }
+            drive::fork_with_history(&b, &m2, &[]).map(|r| r.0.take_action(&x))
+        })
+        .map_err(|e| format!("panic: {}", e))?;
+        if let Some(c2) = second {
+            let v2 = drive::View::new(&c2, &mm, true);
+            return Ok(obs.on_state(&v2, &mut st).err());
+        }
+        return Ok(None);
     }
     for a in branch.iter() {
         let v0 = drive::View::new(&eng, &mo, true);
